@@ -1,0 +1,33 @@
+//go:build verif
+
+package mq
+
+import "io"
+
+// This file is compiled only with the build tag "verif". It exposes the
+// unexported variable byte integer codec, unchanged, so that a verification
+// harness can enumerate all values and short byte sequences without building
+// (up to 256 MiB) frames around them.
+
+// VerifVBIFill writes v with the encoder used for remaining length, property
+// length and subscription identifiers and returns the width it reports.
+func VerifVBIFill(v uint32, buf []byte) int { return vbint(v).fill(buf, 0) }
+
+// VerifVBIWidth returns the width the encoder computes for v.
+func VerifVBIWidth(v uint32) int { return vbint(v).width() }
+
+// VerifVBIDecode runs the in-memory decoder and returns the value, the number
+// of bytes buffer.get advances by, and the error.
+func VerifVBIDecode(data []byte) (uint32, int, error) {
+	var v vbint
+	err := v.UnmarshalBinary(data)
+	return uint32(v), v.width(), err
+}
+
+// VerifVBIRead runs the streaming decoder used for the remaining length and
+// returns the value, the number of bytes read and the error.
+func VerifVBIRead(r io.Reader) (uint32, int64, error) {
+	var v vbint
+	n, err := v.ReadFrom(r)
+	return uint32(v), n, err
+}
